@@ -318,7 +318,7 @@ def run(ctx):
     global KNOWN_PLAIN_AND
     KNOWN_PLAIN_AND = ctx.known('plain-name-containing-AND')
     drive(ctx, [
-        Clause('C18/singles', singles_strategy, oracle_singles, quick=1500, thorough=40000, quick_shards=6),
-        Clause('C18/aggregated', aggregated_strategy, oracle_aggregated, quick=1000, thorough=20000, quick_shards=6),
+        Clause('C18/singles', singles_strategy, oracle_singles, quick=1500, thorough=80000, quick_shards=6),
+        Clause('C18/aggregated', aggregated_strategy, oracle_aggregated, quick=1000, thorough=40000, quick_shards=6),
     ])
     ctx.extra['excluded_counts'] = {k: v for k, v in sorted(ctx.stats.classes.items()) if k.startswith('excluded:')}
